@@ -88,6 +88,8 @@ def edits_for_module(mod, seed):
         devs = devs + [{"k": "mm_map", "i": i, "v": [1, 0]} for i in (1, 26, 27, 63, 64, 70, 95)]
         # the count lowered and raised back: controllers hidden and exposed again keep what they held
         devs = devs + [{"k": "mm_count_bounce", "lo": lo} for lo in (0, 1)]
+        # ... also in several steps (n -> n-1 -> n-2 -> n, n -> n-2 -> n-1 -> n)
+        devs = devs + [{"k": "mm_count_bounce", "lo": 1, "steps": st} for st in ([-1, -2], [-2, -1], [-1, -2, -1])]
     return devs + [o for o in c17.inplace_ops(tkey) if o["k"] not in ("ip_links", "ip_ctlvalues", "ip_optvalues", "mm_uvalue")]
 
 
@@ -248,7 +250,11 @@ def apply_edit(obj, mi, e):
     elif k == "mm_count_bounce":
         mod = obj.modules[mi] if mi is not None else obj.module
         n0 = mod.user_defined_controllers
-        mod.user_defined_controllers = min(e["lo"], n0)
+        if e.get("steps"):
+            for st in e["steps"]:
+                mod.user_defined_controllers = max(0, n0 + st)
+        else:
+            mod.user_defined_controllers = min(e["lo"], n0)
         mod.user_defined_controllers = n0
     elif k in ("smp_field", "smp_loop", "smp_drop", "env_field", "map1", "env_rebind", "sm_effect_set"):
         apply_sampler_edit(obj.modules[mi] if mi is not None else obj.module, e)
